@@ -231,13 +231,34 @@ impl SDJWTHolder {
             match (claim_to_disclose, sd_jwt_claims) {
                 (Value::Bool(true), Value::Object(sd_jwt_claims)) => {
                     if let Some(Value::String(digest)) = sd_jwt_claims.get(SD_LIST_PREFIX) {
-                        hash_to_disclosure
-                            .push(self.sd_jwt_engine.hash_to_disclosure[digest].to_owned());
+                        let disclosure = self
+                            .sd_jwt_engine
+                            .hash_to_disclosure
+                            .get(digest)
+                            .ok_or(Error::InvalidState(
+                                "Requested claim doesn't exist".to_string(),
+                            ))?;
+                        hash_to_disclosure.push(disclosure.to_owned());
                     }
                 }
                 (claim_to_disclose, Value::Object(sd_jwt_claims)) => {
                     if let Some(Value::String(digest)) = sd_jwt_claims.get(SD_LIST_PREFIX) {
-                        let disclosure = self.sd_jwt_engine.hash_to_decoded_disclosure[digest]
+                        let disclosure = match self
+                            .sd_jwt_engine
+                            .hash_to_decoded_disclosure
+                            .get(digest)
+                        {
+                            Some(disclosure) => disclosure,
+                            // no disclosure for this element (e.g. holder built from a presentation)
+                            None if matches!(claim_to_disclose, Value::Bool(false) | Value::Null) => {
+                                continue
+                            }
+                            None => {
+                                return Err(Error::InvalidState(
+                                    "Requested claim doesn't exist".to_string(),
+                                ))
+                            }
+                        }
                             .as_array()
                             .ok_or(Error::ConversionError("json array".to_string()))?;
                         match (claim_to_disclose, disclosure.get(1)) {
